@@ -90,6 +90,10 @@ def assign_case(draw, tier="quick"):
         vals = draw(V.mixed_column(min_size=n, max_size=n))
     else:
         vals = draw(V.column(kind=kind, min_size=n, max_size=n, elements=_small(kind)))[1]
+    if kind == "int" and n and draw(st.integers(0, 7)) == 0:
+        # an int no float can hold: a promoting assignment cannot convert it (OverflowError in Python) and has to fail cleanly
+        vals = list(vals)
+        vals[draw(st.integers(0, n - 1))] = draw(st.sampled_from([10 ** 400, -(10 ** 400)]))
     kf = draw(st.sampled_from(["int", "slice", "slice", "mask", "mask", "index", "index"]))
     if kf == "int":
         key = ("int", draw(st.integers(-n - 2, n + 1)))
@@ -315,6 +319,19 @@ def _conv(x, T):
     return x
 
 
+def _unconvertible(xs, T):
+    """some int among xs has no float / complex value in Python (OverflowError)"""
+    if T not in (float, complex):
+        return False
+    for x in xs:
+        if type(x) in (int, bool):
+            try:
+                float(x)
+            except OverflowError:
+                return True
+    return False
+
+
 def _snap(v):
     s = v.schema()
     return ([freeze(x) for x in v], None if s is None else (s.kind, s.nullable), v.name, len(v))
@@ -364,6 +381,10 @@ def run_assign(case, ctx):
         if m[0] == "ok":
             assigned = list(m[2])
             ko = kind_outcome(vals, schema0, assigned)
+            if ko[0] == "promote" and _unconvertible(list(vals) + assigned, ko[1]):
+                ctx.label("unconvertible_promotion_failed")       # Python cannot convert the column: failing (cleanly) is right
+                ctx.nontrivial()
+                return
             if ko[0] == "keep" or (ko[0] == "promote" and not ko[3]):
                 nn = "none-value" if any(x is None for x in assigned) else ko[0]
                 return ctx.fail(f"assign/{kf}/{vf}/valid-assignment-rejected/{nn}",
@@ -395,6 +416,9 @@ def run_assign(case, ctx):
         return ctx.fail(f"assign/{kf}/incompatible-value-accepted/{pos}",
                         f"{vals} [{schema0}] [{key}] = {value}: stored {after[0]} as {after[1]}")
     T = ko[1] if ko[0] == "promote" else (schema0.kind if schema0 is not None else None)
+    if ko[0] == "promote" and _unconvertible(list(vals) + assigned, T):
+        ctx.label("unspecified_outcome")
+        return
     got = list(v)
     sc = v.schema()
     if ko[0] != "any" and vals:
